@@ -23,6 +23,9 @@ theorem cfg_union : unionQuantifier = "any" ∧ unionLazy = false ∧ unionOverA
 theorem cfg_literal : literalIsMembership = true := by decide
 theorem cfg_requiredTestFirst : requiredTestFirst = true := by decide
 theorem cfg_noneBranchIsEq : noneBranchIsEq = true := by decide
+/-- `_is_subtype` (repaired): a class is a subtype of a Union when it is a subtype of some member; `_get_class_of_type_annotation`
+    reads `__origin__` with getattr -/
+theorem cfg_unionSuper : unionSuperBySubtype = true ∧ classOfGuardsOrigin = true := by decide
 /-- the string branch of `_check_type` (repaired): a name that is a class of the context is checked with isinstance, any other name is
     compared with the class names of the whole MRO -/
 theorem cfg_strBranch : strBranchResolvesInContext = true ∧ strBranchComparesMro = true := by decide
